@@ -561,6 +561,10 @@ pub struct VState {
     pub flag: [bool; 4],
     /// harness bound: when set, a succeeding stub leaves at most this many tokens unread
     pub tail_bound: Option<usize>,
+    /// ghost: length of the inner input of a nested parse
+    pub len2: usize,
+    /// ghost: a log shared by every clone of this state (for sub-parsers that run on a cloned state)
+    pub ext: *mut CallLog,
 }
 impl VState {
     pub fn new(len: usize) -> Self {
@@ -575,6 +579,8 @@ impl VState {
             reg: [0; 8],
             flag: [false; 4],
             tail_bound: None,
+            len2: 0,
+            ext: core::ptr::null_mut(),
         }
     }
 }
@@ -593,6 +599,25 @@ impl<'src, I: Input<'src>> Inspector<'src, I> for VState {
     }
 }
 
+/// Contexts the stubs can record.
+pub trait CtxId {
+    fn ctx_id(&self) -> u16;
+}
+impl CtxId for () {
+    fn ctx_id(&self) -> u16 {
+        0
+    }
+}
+impl CtxId for u16 {
+    fn ctx_id(&self) -> u16 {
+        *self
+    }
+}
+impl CtxId for u8 {
+    fn ctx_id(&self) -> u16 {
+        *self as u16
+    }
+}
 pub type X<Er, C = ()> = extra::Full<Er, VState, C>;
 pub type IR<'p, T, Er, C = ()> = InputRef<'static, 'p, SymIn<T>, X<Er, C>>;
 
@@ -641,7 +666,7 @@ pub fn offer<'p, I, Er, C>(inp: &mut InputRef<'static, 'p, I, X<Er, C>>, at: usi
 where
     I: Input<'static, Cursor = usize>,
     Er: VE + Error<'static, I>,
-    C: 'static,
+    C: CtxId + 'static,
 {
     if Er::ZST {
         // what `add_alt` does for zero-sized errors: unconditionally at the current cursor
@@ -663,6 +688,8 @@ pub struct AnyP<I, E> {
     pub span: usize,
     /// the call logged in the last reserved entry must fail (bound of driver harnesses)
     pub bounded: bool,
+    /// this stub runs on the inner input of a nested parse (length `state.len2`)
+    pub inner: bool,
     pub _p: core::marker::PhantomData<fn(I, E)>,
 }
 impl<I, E> Clone for AnyP<I, E> {
@@ -678,6 +705,7 @@ pub fn anyp<I, E>(slot: usize) -> AnyP<I, E> {
         ok_offers: true,
         span: 1,
         bounded: false,
+        inner: false,
         _p: core::marker::PhantomData,
     }
 }
@@ -689,6 +717,7 @@ pub fn anyp_multi<I, E>(slot: usize, span: usize) -> AnyP<I, E> {
         ok_offers: true,
         span,
         bounded: false,
+        inner: false,
         _p: core::marker::PhantomData,
     }
 }
@@ -699,6 +728,7 @@ pub fn anyp_prog<I, E>(slot: usize) -> AnyP<I, E> {
         ok_offers: true,
         span: 1,
         bounded: false,
+        inner: false,
         _p: core::marker::PhantomData,
     }
 }
@@ -706,7 +736,7 @@ impl<I, Er, C> AnyP<I, X<Er, C>>
 where
     I: Input<'static, Cursor = usize>,
     Er: VE + Error<'static, I>,
-    C: 'static,
+    C: CtxId + 'static,
 {
     pub fn run<'p>(&self, inp: &mut InputRef<'static, 'p, I, X<Er, C>>, emit: bool) -> Result<u16, ()> {
         // log entry of this call: the first unused one of the reserved span, else the last (counting)
@@ -722,7 +752,8 @@ where
         if self.bounded && idx + 1 == self.slot + self.span {
             ch::assume(kind != 0);
         }
-        let out = stub_step(inp, idx, self.slot, kind, self.progress, self.ok_offers, emit);
+        let len = if self.inner { inp.state.len2 } else { inp.state.len };
+        let out = stub_step_len(inp, len, idx, self.slot, kind, self.progress, self.ok_offers, emit);
         if kind == 0 {
             Ok(out)
         } else {
@@ -744,9 +775,26 @@ pub fn stub_step<'p, I, Er, C>(
 where
     I: Input<'static, Cursor = usize>,
     Er: VE + Error<'static, I>,
-    C: 'static,
+    C: CtxId + 'static,
 {
     let len = inp.state.len;
+    stub_step_len(inp, len, idx, idslot, kind, progress, ok_offers, emit)
+}
+pub fn stub_step_len<'p, I, Er, C>(
+    inp: &mut InputRef<'static, 'p, I, X<Er, C>>,
+    len: usize,
+    idx: usize,
+    idslot: usize,
+    kind: u8,
+    progress: bool,
+    ok_offers: bool,
+    emit: bool,
+) -> u16
+where
+    I: Input<'static, Cursor = usize>,
+    Er: VE + Error<'static, I>,
+    C: CtxId + 'static,
+{
     let entry = inp.cursor;
     let entry_sec = inp.errors.secondary.len();
     let entry_believed = inp.state.believed;
@@ -802,17 +850,21 @@ where
         offered,
         fail_pos,
         fail_id,
-        ctx_seen: 0,
+        ctx_seen: inp.ctx.ctx_id(),
         mode_emit: emit,
         kind,
     };
+    if !inp.state.ext.is_null() {
+        // SAFETY (harness): points at a local of the harness frame that outlives the parse
+        unsafe { *inp.state.ext = inp.state.log[idx] };
+    }
     out
 }
 impl<I, Er, C> Parser<'static, I, u16, X<Er, C>> for AnyP<I, X<Er, C>>
 where
     I: Input<'static, Cursor = usize>,
     Er: VE + Error<'static, I>,
-    C: 'static,
+    C: CtxId + 'static,
 {
     fn go<M: Mode>(&self, inp: &mut InputRef<'static, '_, I, X<Er, C>>) -> PResult<M, u16> {
         // M is only visible through `bind`: record whether the closure ran.
@@ -843,7 +895,7 @@ pub fn setup<'p, I, Er, C>(inp: &mut InputRef<'static, 'p, I, X<Er, C>>) -> S0
 where
     I: Input<'static, Cursor = usize>,
     Er: VE + Error<'static, I>,
-    C: 'static,
+    C: CtxId + 'static,
 {
     let len = inp.state.len;
     let pos = ch::below(len);
@@ -871,7 +923,7 @@ pub fn run<T, Er, C, R>(f: impl for<'p> FnOnce(&mut IR<'p, T, Er, C>, S0) -> R) 
 where
     T: SymTok,
     Er: VE + Error<'static, SymIn<T>>,
-    C: Default + 'static,
+    C: CtxId + Default + 'static,
 {
     let len = ch::any_usize();
     let mut st = VState::new(len);
@@ -896,7 +948,7 @@ pub fn snap<'p, I, Er, C>(inp: &mut InputRef<'static, 'p, I, X<Er, C>>) -> Snap
 where
     I: Input<'static, Cursor = usize>,
     Er: VE + Error<'static, I>,
-    C: 'static,
+    C: CtxId + 'static,
 {
     let n = inp.errors.secondary.len();
     let mut sec = [0u16; SECMAX];
@@ -925,7 +977,7 @@ pub fn lg<'p, I, Er, C>(inp: &mut InputRef<'static, 'p, I, X<Er, C>>, slot: usiz
 where
     I: Input<'static>,
     Er: VE + Error<'static, I>,
-    C: 'static,
+    C: CtxId + 'static,
 {
     inp.state.log[slot]
 }
@@ -1037,7 +1089,7 @@ pub fn alt_full<'p, I, C>(inp: &mut InputRef<'static, 'p, I, X<VErr, C>>) -> Opt
 where
     I: Input<'static, Cursor = usize>,
     VErr: Error<'static, I>,
-    C: 'static,
+    C: CtxId + 'static,
 {
     inp.errors.alt.as_ref().map(|a| (a.pos, a.err))
 }
@@ -1175,7 +1227,7 @@ impl<I, Er, C> IterParser<'static, I, u16, X<Er, C>> for AnyIt<I, X<Er, C>>
 where
     I: Input<'static, Cursor = usize>,
     Er: VE + Error<'static, I>,
-    C: 'static,
+    C: CtxId + 'static,
 {
     type IterState<M: Mode> = usize;
     fn make_iter<M: Mode>(&self, inp: &mut InputRef<'static, '_, I, X<Er, C>>) -> PResult<Emit, usize> {
